@@ -322,6 +322,7 @@ def step (s : JS) : Label → Option JS
     | none => some s
     | some e =>
       if e.gone then some s
+      else if e.w.ro.deleting then some s      -- already in deletion (kept by whatever finalizer keeps it): Delete changes nothing
       else if e.w.ro.hasFinalizer then some (setEntry s i { e with w := { e.w with ro := { e.w.ro with deleting := true } } })
       else some (setEntry s i { e with gone := true })
   | .perturb i w' =>
